@@ -301,6 +301,12 @@ def run(index, rep, tier):
                       "Node.set_child_nodes empties self._child_nodes in place and only then iterates `%s`: when the caller passes a lazy view of this node's own children (nd.set_child_nodes(nd.child_node_iter()), reversed(nd._child_nodes)) the view is empty by then and the node loses all its children - leaves and their taxa vanish from the tree" % p_)
         rep.floor("R03.10", "in-place clears in set_child_nodes", 1, len(in_place))
 
+    # ---- R03.11 rules owned by other properties that this one rests on
+    with rep.section("R03.11"):
+        rep.rule("R03.11", "an update requested by a re-rooting is done under the new rooting state (C07 R07.1: the flag is set before the re-encode); the pruning loops either remove what they selected or raise, so they terminate (C08 R08.3); label-based pruning finds the taxa that carry the labels, also after relabelling (C10 R10.9)")
+        nb = borrow(index, rep, "C07", {"R07.1"}, "R03.11") + borrow(index, rep, "C08", {"R08.3"}, "R03.11") + borrow(index, rep, "C10", {"R10.9"}, "R03.11")
+        rep.floor("R03.11", "borrowed obligations", 8, nb)
+
 
 def _pairing(rep, fi):
     cfg = cfg_of(fi)
